@@ -77,6 +77,7 @@
 -/
 import JdProofs.DiffEmpty
 import JdProofs.DiffEmptySet
+import JdProofs.MergePrecision
 
 namespace Jd.Props.C05
 open Jd Jd.Spec
@@ -372,5 +373,22 @@ example (F : FloatEq0) :
       diffM [.setKeys ["id"]] DES.Example.kA DES.Example.kB = []) ∧
     (equals [.setKeys ["id"]] DES.Example.kA DES.Example.kD = false ∧
       diffM [.setKeys ["id"]] DES.Example.kA DES.Example.kD ≠ []) := DES.Example.ex_keys F
+
+/-! ## MERGE strategy with a Precision option: the two implications that survive (KF-C05-precision) -/
+
+/-- empty merge diff ⇒ Equals under the options, for ANY precision bit pattern -/
+theorem equals_of_diffM_nil_merge_precision (o : Opts) (ho : dispatchTag o = .list)
+    (hm : isMerge o = true) (M : Jd.DPL.PrecMono o) (a b : Json)
+    (hl : a.listDoc = true) (hl' : b.listDoc = true) (hw : a.wf = true) (hw' : b.wf = true)
+    (hd : diffM o a b = []) : equals o a b = true ∧ equivB o a b = true :=
+  Jd.MP.equals_of_diffM_nil_merge_precision o ho hm M a b hl hl' hw hw' hd
+
+/-- Equals WITHOUT options ⇒ empty merge diff under the options. Neither arrow reverses
+    (`MP.Witness.converse_fails_scalar`, `MP.Witness.specEq_fails_array`). -/
+theorem diffM_nil_of_equals_nil_merge_precision (o : Opts) (ho : dispatchTag o = .list)
+    (hm : isMerge o = true) (M : Jd.DPL.PrecMono o) (a b : Json)
+    (hr : a.rawDoc = true) (hw : a.wf = true) (hl' : b.listDoc = true) (hw' : b.wf = true)
+    (h : equals [] a b = true) : diffM o a b = [] :=
+  Jd.MP.diffM_nil_of_equals_nil_merge_precision o ho hm M a b hr hw hl' hw' h
 
 end Jd.Props.C05
